@@ -63,6 +63,13 @@ def configs(tier, seed):
             es = BIG_EXPS if tier == 'thorough' else C.pick(BIG_EXPS, 2, rng)
             for E in es:
                 out.append(_cfg(s, n, f, r, 'saturate', 'pyfloat', rng.choice(ENTRIES) if tier == 'thorough' else 'set_val', 64, big=E))
+    # arrays and lists mixing one element of any magnitude with ordinary ones (the huge element must not change how the others are rounded)
+    for (s, n, f) in C.pick(bigf, 12 if tier == 'quick' else 60, rng):
+        for r in C.pick(SP.ROUNDINGS, 2, rng) if tier == 'quick' else SP.ROUNDINGS:
+            E = rng.choice(BIG_EXPS[4:])
+            c = _cfg(s, n, f, r, 'saturate', rng.choice(('arr:float64', 'listf')), rng.choice(('ctor', 'set_val', 'call')), 16, big=E)
+            c['big_first_only'] = True
+            out.append(c)
     return out
 
 
@@ -104,7 +111,7 @@ def inputs(cfg):
             exp = -(f + G)
             if exp < emin:
                 exp = emin
-            if cfg.get('big') is not None:
+            if cfg.get('big') is not None and (i == 0 or not cfg.get('big_first_only')):
                 exp, b = cfg['big'], 53           # v = m * 2^E, |m| < 2^53: every double of that binade range
             else:
                 b = min(53, 62 - f, emax) - exp
